@@ -36,11 +36,19 @@ UpdFinger(r) ==
   ELSE IF r.srcNil THEN (IF \E i \in 1..4 : r.post[i] # "keep" THEN {<<"C10", "nil-source-modified-target", "", r.id>>} ELSE {})
   ELSE UNION {LET m == Must(p, UFields[i], Rng(r.nonzero)) IN
               IF m # "open" /\ r.post[i] # m THEN {<<"C10", IF m = "keep" THEN "field-overwritten" ELSE "field-not-updated", UFields[i], r.id>>} ELSE {} : i \in 1..4}
+       \cup (LET m == MustLS(p, Rng(r.nonzero)) IN
+             IF m # "open" /\ r.post[5] # m THEN {<<"C10", IF m = "keep" THEN "field-overwritten" ELSE "field-not-updated", "LS", r.id>>} ELSE {})
 
+\* C11: a method with a default constructor that is rebuilt in a later sweep (seen rule) still starts from FUNC's result
+RebuildFinger(r) ==
+  IF r.gen = "panic" THEN {<<"C13", "generator-panic", r.why, r.id>>}
+  ELSE IF r.gen # "ok" THEN {<<"C11", "default-constructor-program-rejected", "rebuild", r.id>>}
+  ELSE IF ~r.compiles THEN {<<"C01", "does-not-compile", "default-rebuild", r.id>>}
+  ELSE IF r.res.nil \/ r.res.A # 100 THEN {<<"C11", "nil-source-does-not-return-constructor-result", "rebuilt-method", r.id>>} ELSE {}
 \* C11, default constructors: res = [nil, A, B] of the returned struct (nil: a nil pointer was returned)
 DMatch(e, got) == e = -1 \/ e = got
 DefFinger(r) ==
-  LET p == r.prog e == IF r.srcNil THEN ExpectNil(p) ELSE ExpectVal(p) IN
+  LET p == r.prog e == IF r.srcNil THEN ExpectNil(p) ELSE IF r.zeroB THEN ExpectZeroB(p) ELSE ExpectVal(p) IN
   IF r.gen = "panic" THEN {<<"C13", "generator-panic", r.why, r.id>>}
   ELSE IF r.gen # "ok" THEN {<<"C11", "default-constructor-program-rejected", "", r.id>>}
   ELSE IF ~r.compiles THEN {<<"C01", "does-not-compile", "default", r.id>>}
@@ -48,7 +56,7 @@ DefFinger(r) ==
   ELSE IF r.res.nil THEN {<<"C11", IF r.srcNil THEN "nil-source-does-not-return-constructor-result" ELSE "nil-result", "", r.id>>}
   ELSE (IF ~DMatch(e.A, r.res.A) THEN {<<"C11", IF r.srcNil THEN "nil-source-does-not-return-constructor-result" ELSE "mapped-field-not-converted", "", r.id>>} ELSE {})
        \cup (IF ~DMatch(e.B, r.res.B) THEN {<<"C11", IF r.srcNil THEN "nil-source-does-not-return-constructor-result" ELSE IF p.ignoreB THEN "ignored-field-lost-constructor-value" ELSE "mapped-field-not-converted", "", r.id>>} ELSE {})
-Finger(r) == IF r.kind = "field" THEN FieldFinger(r) ELSE IF r.kind = "acc" THEN AccFinger(r) ELSE IF r.kind = "fieldx" THEN XFinger(r) ELSE IF r.kind = "default" THEN DefFinger(r) ELSE UpdFinger(r)
+Finger(r) == IF r.kind = "field" THEN FieldFinger(r) ELSE IF r.kind = "acc" THEN AccFinger(r) ELSE IF r.kind = "fieldx" THEN XFinger(r) ELSE IF r.kind = "default-rebuild" THEN RebuildFinger(r) ELSE IF r.kind = "default" THEN DefFinger(r) ELSE UpdFinger(r)
 VARIABLES l, bad
 Init == l = 1 /\ bad = {}
 Next == /\ l <= Len(Obs)
